@@ -112,6 +112,20 @@ pub fn pair_ctx(left: &asp::Program, right: &asp::Program, limit: usize) -> Pair
     pair_ctx_with(left, right, limit, false)
 }
 pub fn pair_ctx_with(left: &asp::Program, right: &asp::Program, limit: usize, numeric: bool) -> PairCtx {
+    let cands = if numeric { vec![vec![Val::Int(0), Val::Int(1), Val::Int(2)], vec![Val::Int(1), Val::Int(2)]] } else { vec![] };
+    pair_ctx_cands(left, right, limit, cands)
+}
+/// the active set named by a leading marker comment of the left program's text: `%numeric` (integers only),
+/// `%extremes` (#inf, an integer, #sup - the values at which strict and non-strict comparisons with the
+/// extremes of the order differ), or the default mix
+pub fn pair_ctx_marked(left: &asp::Program, right: &asp::Program, limit: usize, text: &str) -> PairCtx {
+    if text.starts_with("%extremes") {
+        pair_ctx_cands(left, right, limit, vec![vec![Val::Inf, Val::Int(1), Val::Sup], vec![Val::Inf, Val::Sup]])
+    } else {
+        pair_ctx_with(left, right, limit, text.starts_with("%numeric"))
+    }
+}
+fn pair_ctx_cands(left: &asp::Program, right: &asp::Program, limit: usize, cands: Vec<Vec<Val>>) -> PairCtx {
     let mut preds: Vec<(String, usize)> = vec![];
     for p in left.predicates().into_iter().chain(right.predicates()) {
         let k = (p.symbol, p.arity);
@@ -127,13 +141,11 @@ pub fn pair_ctx_with(left: &asp::Program, right: &asp::Program, limit: usize, nu
     }
     syms.sort();
     let mut active = choose_active(&preds, limit, &syms, false);
-    if numeric {
-        for c in [vec![Val::Int(0), Val::Int(1), Val::Int(2)], vec![Val::Int(1), Val::Int(2)]] {
-            let n: usize = preds.iter().map(|(_, a)| c.len().pow(*a as u32)).sum();
-            if n <= limit + 2 {
-                active = c;
-                break;
-            }
+    for c in cands {
+        let n: usize = preds.iter().map(|(_, a)| c.len().pow(*a as u32)).sum();
+        if n <= limit + 2 {
+            active = c;
+            break;
         }
     }
     for v in &active {
@@ -201,7 +213,7 @@ pub fn check_pair(run: Option<&Run>, lt: &str, rt: &str, limit: usize) -> Vec<(S
     let (Ok(left), Ok(right)) = (lt.parse::<asp::Program>(), rt.parse::<asp::Program>()) else {
         return out;
     };
-    let cx = pair_ctx_with(&left, &right, limit, lt.starts_with("%numeric"));
+    let cx = pair_ctx_marked(&left, &right, limit, lt);
     let hs = ht_space(cx.u.len());
     let ws = [W0, W0 + 3];
     let exp: Vec<(Table, Table, i128)> = ws.iter().map(|w| expected(&cx, &left, &right, *w)).collect();
@@ -288,6 +300,18 @@ pub fn arith_pairs() -> Vec<(String, String)> {
         for y in arith {
             out.push((x.to_string(), y.to_string()));
             out.push((format!("%numeric\n{x}"), y.to_string()));
+        }
+    }
+    // comparisons with the extremes of the order, strict and non-strict, under the default active set and
+    // under {#inf, 1, #sup} (`%extremes` marker)
+    let ext = [
+        "p(X) :- q(X).", "p(X) :- q(X), X > #inf.", "p(X) :- q(X), X < #sup.", "p(X) :- q(X), #inf < X.", "p(X) :- q(X), X >= #inf.",
+        "p(X) :- q(X), #sup >= X.", "p(X) :- q(X), X != #sup.",
+    ];
+    for x in ext {
+        for y in ext {
+            out.push((x.to_string(), y.to_string()));
+            out.push((format!("%extremes\n{x}"), y.to_string()));
         }
     }
     out
